@@ -75,7 +75,13 @@ def spacetime_case(draw, kinds=("Wp", "Wp", "Wp", "Wn", "F", "KS", "PP"),
     c.update(spec=spec, t=0.0 if kind == "Wt0" else draw(f(-1, 1)),
              order=order, x0=x0, L=L, trim=trim,
              omit_defaults=(kind == "Wt0" or draw(st.booleans())),
-             kappa=draw(st.sampled_from([8 * np.pi] * 3 + [1.0, 2.5])))
+             kappa=draw(st.sampled_from([8 * np.pi] * 3 + [1.0, 2.5])),
+             # cache settings never change a value (C01/C03): mostly none
+             # given, sometimes a clean-up every other calculation or a
+             # memory limit below the size of the inputs
+             cache_kw=draw(st.sampled_from(
+                 [{}] * 5 + [dict(clear_cache_every_nbr_calc=2),
+                             dict(memory_threshold_inGB=1e-7)])))
     return c
 
 
